@@ -4,7 +4,7 @@
    A [forest] is a well-formed profile-event stream (CPython's event discipline); [events] flattens it. *)
 From Coq Require Import ZArith NArith List Bool.
 Import ListNotations.
-Require Import UV.C19.Model UV.C19.Proofs.
+Require Import UV.C19.Model UV.C19.Proofs UV.C19.SymFile UV.C19.SymFileProofs.
 Local Open Scope Z_scope.
 
 (* Refinement: for every configuration of the current code (filters, libcall mode), every call
@@ -155,6 +155,23 @@ Theorem C19_filters_opt_out : forall c f, c_fmode c = Some FOut ->
 Proof. exact filters_opt_out. Qed.
 Print Assumptions C19_filters_opt_out.
 
+(* -F and -N together: the -F calls with everything below them, minus the -N calls and everything
+   below those, wherever they are; without -F: everything minus the -N calls and what is below them *)
+Theorem C19_filters_mixed : forall c f, c_fmode c = Some FIn ->
+  fsel c 0 0 f = pick (is_kin c) (drop (is_kout c) f).
+Proof. exact filters_mixed. Qed.
+Print Assumptions C19_filters_mixed.
+
+Theorem C19_filters_opt_out_general : forall c f ci, c_fmode c = Some FOut -> fsel c ci 0 f = drop (is_kout c) f.
+Proof. exact filters_out_general. Qed.
+Print Assumptions C19_filters_opt_out_general.
+
+(* every call of the main module is traced whatever the library-call mode: removing the library
+   calls from the trace gives the program's own call forest *)
+Theorem C19_main_calls_all_traced : forall m f l, main_only (libprune m l f) = main_only f.
+Proof. exact main_calls_all_traced. Qed.
+Print Assumptions C19_main_calls_all_traced.
+
 (* pseudo-address table: the address-level automaton (what the C code does) is the symbolic one on
    the canonical symbols; the table only grows; every address handed to libmcount resolves through
    the final table (python.fake.sym) - and any extension of it - to the symbol of its event *)
@@ -166,3 +183,62 @@ Theorem C19_addresses_resolve : forall c md evs tab s,
   forall ext, resolve_hooks (tab' ++ ext) hs = map Some (snd (run c s sevs)).
 Proof. exact arun_resolves. Qed.
 Print Assumptions C19_addresses_resolve.
+
+(* The callback as a whole, on interpreter-level events (uftrace_trace_python from module
+   initialisation: call-depth test, naming, classification, address table, filters, library policy):
+   for every configuration, every sequence of call forests over a table of functions whose names
+   determine their symbols, followed by any returns of frames never called (script ended by an
+   exception): the counters are restored and the addresses handed to libmcount, resolved through
+   the symbol table written at exit, are exactly the traversal of the selected forests. *)
+Theorem C19_trace_python_spec : forall c md fns fs rets,
+  c_fixed c = true -> consistent md fns -> returns_only rets = true ->
+  let '(tab, s, hs) := trace_python c md (flat_map (ievents fns) fs ++ rets) in
+  s = st0 /\ resolve_hooks tab hs = map Some (select_all c (map (iforest_syms md fns) fs)).
+Proof. exact trace_python_spec. Qed.
+Print Assumptions C19_trace_python_spec.
+
+(* its hypothesis is decidable and checked on every generated case *)
+Theorem C19_consistentb_sound : forall md fns, consistentb md fns = true -> consistent md fns.
+Proof. exact consistentb_sound. Qed.
+Print Assumptions C19_consistentb_sound.
+
+Example C19_trace_python_example :
+  consistentb (Some (main_dir_of ex_main)) ex_fns = true /\ returns_only ex_rets = true /\
+  (let '(tab, s, hs) := trace_python (cfg_FN true) (Some (main_dir_of ex_main)) (ievents ex_fns ex_forest ++ ex_rets) in
+   hs = [AEnter 1; AEnter 2; AEnter 3; AExit; AExit; AExit] /\ length tab = 4%nat /\ s = st0).
+Proof. exact trace_python_example. Qed.
+Print Assumptions C19_trace_python_example.
+
+(* the two judgements of a run agree: an implementation output equal to the model's is accepted by
+   the specification checker applied at run time *)
+Theorem C19_checker_accepts_model : forall k,
+  consistent (option_map main_dir_of (k_pymain k)) (k_funcs k) ->
+  forallb (fun p => match fst p with Return => true | _ => false end) (k_raw k) = true ->
+  agrees k = true -> ok_case k = true.
+Proof. exact checker_accepts_model. Qed.
+Print Assumptions C19_checker_accepts_model.
+
+(* python.fake.sym (write_symtab: 48-byte header, "%016x %c %s" entries, __sym_end) read back line
+   by line gives the table itself: addresses 1..n in order, names and library flags as recorded;
+   names without newline, fewer than 16^16 symbols *)
+Theorem C19_symfile_roundtrip : forall tab,
+  Forall (fun s => no_nl (s_name s)) tab -> (N.of_nat (length tab) + 1 < 16 ^ 16)%N ->
+  parse_symfile (render_symtab tab) = Some (number_from 1 tab).
+Proof. exact symfile_roundtrip. Qed.
+Print Assumptions C19_symfile_roundtrip.
+
+(* so the address the callback handed to libmcount for a call names, in the file every analysis
+   command reads, the symbol of that call (with C19_addresses_resolve / C19_trace_python_spec) *)
+Theorem C19_symfile_resolves : forall tab a s,
+  Forall (fun s => no_nl (s_name s)) tab -> (N.of_nat (length tab) + 1 < 16 ^ 16)%N ->
+  resolve tab a = Some s ->
+  exists l, parse_symfile (render_symtab tab) = Some l /\ In (a, s) l.
+Proof. exact symfile_resolves. Qed.
+Print Assumptions C19_symfile_resolves.
+
+Example C19_symfile_example :
+  parse_symfile (render_symtab [l_sym (py nm_a); l_sym (cf nm_getpid)]) =
+    Some [(1%N, l_sym (py nm_a)); (2%N, l_sym (cf nm_getpid))] /\
+  length (join_lines (header_lines 2)) = 48%nat.
+Proof. exact symfile_example. Qed.
+Print Assumptions C19_symfile_example.
